@@ -541,4 +541,147 @@ theorem exact_solver_rows (vars : List Label) (m : Bqm) :
 example : (exactPolySolver true [.str "a", .str "b"] [([.str "a"], 4), ([.str "a", .str "b"], -2), ([], 3)]).map (fun r => (r.x.map (·.2), r.energy))
     = [([-1, -1], -3), ([1, -1], 9), ([1, 1], 5), ([-1, 1], 1)] := by decide +kernel
 
+/-! ## Round 8: `PolyScaleComposite.sample_poly` total over `scalar` — the refusal of `scalar = 0` is part of the model
+
+`polyscale_composite` above excludes `scalar = 0` by hypothesis (the code of that time divided the energies by zero).
+The repository now refuses it (`if not scalar: raise ValueError`, fix cca1a20); `polyScaleCompositeFull` models that
+branch as coded (outcome = error) and the statements below have no hypothesis on `scalar`. -/
+
+/-- the refusal branch is taken exactly for `scalar = 0` (an explicit zero; `None` is the normalisation path), for every
+    child, polynomial, ranges and ignored terms — in particular also with `ignored_terms`, where the energies would be
+    recomputed and the old code was accidentally right -/
+theorem polyscale_refuses_iff_scalar_zero (child : Poly → List Row) (p : Poly) (scalar : Option Rat) (br : RangeArg)
+    (pr : Option RangeArg) (ign : List (List Label)) :
+    polyScaleCompositeFull child p scalar br pr ign = .error .scalarZero ↔ scalar = some 0 := by
+  cases scalar with
+  | none =>
+    simp only [polyScaleCompositeFull]
+    cases polyNormalizeSample child p br pr ign <;> simp
+  | some s =>
+    by_cases h : s = 0 <;> simp [polyScaleCompositeFull, h]
+
+/-- away from `scalar = 0` the total model is the model `polyscale_composite` speaks about -/
+theorem polyscale_full_agrees (child : Poly → List Row) (p : Poly) (scalar : Option Rat) (hs : scalar ≠ some 0) (br : RangeArg)
+    (pr : Option RangeArg) (ign : List (List Label)) :
+    polyScaleCompositeFull child p scalar br pr ign =
+      (match polyScaleComposite child p scalar br pr ign with
+       | some out => .ok out
+       | none => .error .rangeZero) := by
+  cases scalar with
+  | none =>
+    simp only [polyScaleCompositeFull, polyScaleComposite]
+    cases polyNormalizeSample child p br pr ign <;> rfl
+  | some s =>
+    have h : s ≠ 0 := fun e => hs (by rw [e])
+    simp [polyScaleCompositeFull, polyScaleComposite, h]
+
+/-- **PolyScaleComposite.sample_poly, total statement**: for every `scalar` (given or `None`), every child whose rows
+    carry the energy of the polynomial it was given, every polynomial (a dict: distinct keys), ranges and ignored terms,
+    exactly one of three things happens:
+    * `scalar = 0` and the composite refuses (`ValueError`; the child's rows are never reported with a wrong energy);
+    * `scalar` is `None`, a range end is 0 and `normalize` refuses (`ZeroDivisionError`);
+    * rows are returned, and every row carries the energy of the SUBMITTED polynomial. -/
+theorem polyscale_composite_total (child : Poly → List Row) (p : Poly) (hk : (p.map (·.1)).Nodup)
+    (hchild : ∀ q, ∀ r ∈ child q, r.energy = polyEnergy r.val q)
+    (scalar : Option Rat) (br : RangeArg) (pr : Option RangeArg) (ign : List (List Label)) :
+    (scalar = some 0 ∧ polyScaleCompositeFull child p scalar br pr ign = .error .scalarZero) ∨
+    (scalar = none ∧ polyScaleCompositeFull child p scalar br pr ign = .error .rangeZero ∧
+      ((rangeEnds br pr).1.1 = 0 ∨ (rangeEnds br pr).1.2 = 0 ∨ (rangeEnds br pr).2.1 = 0 ∨ (rangeEnds br pr).2.2 = 0)) ∨
+    (scalar ≠ some 0 ∧ ∃ out, polyScaleCompositeFull child p scalar br pr ign = .ok out ∧
+      ∀ r ∈ out, r.energy = polyEnergy r.val p) := by
+  by_cases hs : scalar = some 0
+  · exact Or.inl ⟨hs, (polyscale_refuses_iff_scalar_zero child p scalar br pr ign).2 hs⟩
+  · right
+    rw [polyscale_full_agrees child p scalar hs br pr ign]
+    cases hc : polyScaleComposite child p scalar br pr ign with
+    | some out => exact Or.inr ⟨hs, out, rfl, polyscale_composite child p hk hchild scalar hs br pr ign out hc⟩
+    | none =>
+      left
+      cases scalar with
+      | some s => simp [polyScaleComposite] at hc
+      | none =>
+        simp only [polyScaleComposite] at hc
+        exact ⟨rfl, rfl, ((polyscale_normalize child p hk hchild br pr ign).1).1 hc⟩
+
+/-- rows are returned only for a non-zero (or absent) scalar, and then with the submitted polynomial's energy: the
+    form the harness checks (`ValueError` or every row right) -/
+theorem polyscale_rows_only_when_nonzero (child : Poly → List Row) (p : Poly) (hk : (p.map (·.1)).Nodup)
+    (hchild : ∀ q, ∀ r ∈ child q, r.energy = polyEnergy r.val q)
+    (scalar : Option Rat) (br : RangeArg) (pr : Option RangeArg) (ign : List (List Label)) (out : List Row)
+    (h : polyScaleCompositeFull child p scalar br pr ign = .ok out) :
+    scalar ≠ some 0 ∧ ∀ r ∈ out, r.energy = polyEnergy r.val p := by
+  rcases polyscale_composite_total child p hk hchild scalar br pr ign with ⟨_, h0⟩ | ⟨_, h0, _⟩ | ⟨hs, out', h1, h2⟩
+  · rw [h0] at h; cases h
+  · rw [h0] at h; cases h
+  · rw [h1] at h; cases h; exact ⟨hs, h2⟩
+
+/-- non-vacuity: an explicit zero is refused with and without ignored terms, for the demo child that does return a row -/
+example : polyScaleErrOf (polyScaleCompositeFull demoChild [([.str "a"], 4), ([.str "a", .str "b"], -2), ([], 3)] (some 0) (.num 1) none [])
+    = some .scalarZero := by decide +kernel
+example : polyScaleErrOf (polyScaleCompositeFull demoChild [([.str "a"], 4), ([.str "a", .str "b"], -2), ([], 3)] (some 0) (.num 1) none [[.str "a", .str "b"]])
+    = some .scalarZero := by decide +kernel
+/-- a non-zero scalar: the child sees the scaled polynomial (energy 9/2), the row comes back with the submitted energy 9 -/
+example : (match polyScaleCompositeFull demoChild [([.str "a"], 4), ([.str "a", .str "b"], -2), ([], 3)] (some (1/2)) (.num 1) none [] with
+    | .ok out => out.map (fun r => (r.x, r.energy)) | .error _ => []) = [([(.str "a", 1), (.str "b", -1)], 9)] := by decide +kernel
+/-- `None` with a range end 0: the other refusal -/
+example : polyScaleErrOf (polyScaleCompositeFull demoChild [([.str "a"], 4)] none (.num 0) none []) = some .rangeZero := by decide +kernel
+
+/-! ## Round 8: `TrackingComposite` through all three entry points, with its log -/
+
+/-- **TrackingComposite.sample / sample_ising / sample_qubo as coded** (`self.child.<same method>` and the log), for every
+    child class implementing one of the three methods with the energy contract: the returned rows are the child's answer to
+    the same call and carry the energy of the submitted problem (BQM with offset / Ising / QUBO); the log grows by exactly
+    this input and this output and nothing logged before changes; `output` afterwards is the returned answer. -/
+theorem tracking_composite_entries (impl : Impl) (child : Bqm → List Row) (hc : ChildOK child) (log : TrackLog) (inp : TrackedInput) :
+    (match inp with
+     | .bqm m => (trackingCall impl child log inp).1 = mixinSample impl child m ∧
+                 ∀ r ∈ (trackingCall impl child log inp).1, r.energy = m.energy r.val
+     | .ising h J => (trackingCall impl child log inp).1 = mixinIsing impl child h J ∧
+                 ∀ r ∈ (trackingCall impl child log inp).1, r.energy = linE r.val h + quadE r.val J
+     | .qubo lin quad => (trackingCall impl child log inp).1 = mixinQubo impl child lin quad ∧
+                 ∀ r ∈ (trackingCall impl child log inp).1, r.energy = linE r.val lin + quadE r.val quad) ∧
+    (trackingCall impl child log inp).2.length = log.length + 1 ∧
+    (trackingCall impl child log inp).2.take log.length = log ∧
+    trackingOutput (trackingCall impl child log inp).2 = some (trackingCall impl child log inp).1 := by
+  refine ⟨?_, ?_, ?_, ?_⟩
+  · cases inp with
+    | bqm m => exact ⟨rfl, mixin_energy_offset impl child hc m⟩
+    | ising h J => exact ⟨rfl, mixin_energy_ising impl child hc h J⟩
+    | qubo lin quad => exact ⟨rfl, mixin_energy_qubo impl child hc lin quad⟩
+  · simp [trackingCall]
+  · simp [trackingCall]
+  · simp [trackingCall, trackingOutput]
+
+/-- the log accessors: `input` / `output` on an empty log are refused (`ValueError`), `clear` empties the log, and after
+    any sequence of calls the log has one entry per call, every entry pairing an input with the rows returned for it -/
+theorem tracking_log_history (impl : Impl) (child : Bqm → List Row) (inputs : List TrackedInput) :
+    trackingOutput [] = none ∧ trackingInput [] = none ∧ (∀ log, trackingClear log = []) ∧
+    (inputs.foldl (fun log inp => (trackingCall impl child log inp).2) []).length = inputs.length ∧
+    ∀ e ∈ inputs.foldl (fun log inp => (trackingCall impl child log inp).2) [], e.2 = (trackingCall impl child [] e.1).1 := by
+  refine ⟨rfl, rfl, fun _ => rfl, ?_, ?_⟩
+  · have h : ∀ (l : List TrackedInput) (log : TrackLog),
+        (l.foldl (fun log inp => (trackingCall impl child log inp).2) log).length = log.length + l.length := by
+      have hl : ∀ (log : TrackLog) (a : TrackedInput), (trackingCall impl child log a).2.length = log.length + 1 := by
+        intro log a; simp [trackingCall]
+      intro l
+      induction l with
+      | nil => intro log; simp
+      | cons a t ih => intro log; rw [List.foldl_cons, ih, hl, List.length_cons]; omega
+    simpa using h inputs []
+  · have h : ∀ (l : List TrackedInput) (log : TrackLog), (∀ e ∈ log, e.2 = (trackingCall impl child [] e.1).1) →
+        ∀ e ∈ l.foldl (fun log inp => (trackingCall impl child log inp).2) log, e.2 = (trackingCall impl child [] e.1).1 := by
+      intro l
+      induction l with
+      | nil => intro log hl; simpa using hl
+      | cons a t ih =>
+        intro log hl
+        simp only [List.foldl_cons]
+        apply ih
+        intro e he
+        simp only [trackingCall, List.mem_append, List.mem_singleton] at he
+        rcases he with he | he
+        · exact hl e he
+        · subst he; simp [trackingCall]
+    exact h inputs [] (by simp)
+
 end C07
